@@ -52,6 +52,12 @@ func generateDecorator(names []string) error {
 					g.Id("f").Dot("Dst").Dot("Nodes").Index(Id("n")).Op("=").Id("out")
 					g.Id("f").Dot("Ast").Dot("Nodes").Index(Id("out")).Op("=").Id("n")
 
+					if nodeName == "File" {
+						// a file reached through a *ast.Package: identifiers are resolved against
+						// the imports of the file they are in
+						g.Id("f").Dot("file").Op("=").Id("n")
+					}
+
 					if nodeName != "Package" {
 						g.Line()
 						g.Id("out").Dot("Decs").Dot("Before").Op("=").Id("f").Dot("before").Index(Id("n"))
